@@ -84,9 +84,11 @@ var sessDocs = map[string]string{
 
 // the first root of each document, for the From-Root family
 var sessItems = map[string][]wproto.Item{
-	"tab":   {{D: 1, N: "a"}, {D: 2, N: "b"}, {D: 3, N: "c"}, {D: 2, N: "b2"}},
-	"slash": {{D: 1, N: "a"}, {D: 2, N: "x/y"}, {D: 2, N: "z"}},
-	"files": {{D: 1, N: "a"}, {D: 2, N: "f.x"}, {D: 2, N: "g.y"}, {D: 2, N: "h"}, {D: 2, N: "k"}, {D: 3, N: "m.x"}},
+	"tab":      {{D: 1, N: "a"}, {D: 2, N: "b"}, {D: 3, N: "c"}, {D: 2, N: "b2"}},
+	"slash":    {{D: 1, N: "a"}, {D: 2, N: "x/y"}, {D: 2, N: "z"}},
+	"dotroot":  {{D: 1, N: "."}, {D: 2, N: "a"}, {D: 3, N: "b"}},
+	"dotchild": {{D: 1, N: "r"}, {D: 2, N: "x"}, {D: 3, N: "."}},
+	"files":    {{D: 1, N: "a"}, {D: 2, N: "f.x"}, {D: 2, N: "g.y"}, {D: 2, N: "h"}, {D: 2, N: "k"}, {D: 3, N: "m.x"}},
 }
 
 func sessCallOf(v tla.Value) sessCall {
